@@ -1,7 +1,7 @@
 (* C02: parse_render theorems for ISO date-times followed by a numeric UTC offset +HH:MM / +HH. *)
 From Coq Require Import ZArith List Bool Lia ZifyBool.
 From V Require Import base.Cal gen.ParseTables parse.Lex parse.Prim parse.Ymd parse.Parse parse.Build
-                      parse.ParseSpec parse.LexSeg parse.TokFacts parse.YearThm parse.RenderTac parse.RenderTac3 parse.RenderIso parse.TokFacts2.
+                      parse.ParseSpec parse.LexSeg parse.TokFacts parse.YearThm parse.RenderTac parse.RenderTac3 parse.RenderIso parse.TokFacts2 parse.RenderOffDefs parse.RenderOff_JT_THM parse.RenderOff_JT_THMS parse.RenderOff_JSpace_THM parse.RenderOff_JSpace_THMS.
 Import ListNotations.
 Open Scope Z_scope.
 Ltac Zify.zify_post_hook ::= Z.to_euclidean_division_equations.
@@ -41,30 +41,6 @@ Local Arguments Z.opp !x.
 
 Local Arguments firstn : simpl never.
 Local Arguments skipn : simpl never.
-
-Definition off_segs (f : oform) (o : offs) : list seg :=
-  let sg := SSep (if of_pos o then 43 else 45) in
-  let hh := SDig (digits_n 2 (of_h o)) in
-  let mm := SDig (digits_n 2 (of_m o)) in
-  match f with
-  | OHH_MM => [sg; hh; SSep 58; mm]
-  | OHH => [sg; hh]
-  | _ => []
-  end.
-
-Definition zsegs_of (t : template) (d : dt7) (o : offs) : list seg :=
-  match t with
-  | TDT df j tf ofm => date_segs df d ++ join_segs j ++ time_segs tf d ++ off_segs ofm o
-  | _ => []
-  end.
-
-Definition zone_of_off (secs : Z) : zone := if secs =? 0 then ZUTC else ZOffset None secs.
-
-Lemma tzoffset_ok_small v : -86400 < v < 86400 -> tzoffset_ok v = true.
-Proof. intros H. unfold tzoffset_ok. lia. Qed.
-
-Definition zone_oforms : list oform := [OHH_MM; OHH].
-
 (* YYYY-MM-DD{T, space}{HH:MM, HH:MM:SS} followed by +HH:MM / -HH:MM / +HH / -HH (offsets
    -23:59 .. +23:59): aware result with exactly the rendered offset, UTC when it is zero; naive
    with ignoretz.  "UTC" must not be a local zone name (a zero offset would resolve to the local
@@ -79,34 +55,10 @@ Theorem parse_render_iso_offset_lemma : forall j tf ofm d o df cy loc n0 n1 yf i
           0 false [].
 Proof.
   intros j tf ofm d o df cy loc n0 n1 yf ig Hj Htf Hofm Hd Hdf Ho Hloc.
-  destruct (valid_dt_ranges d Hd) as (Ry & Rmo & Rd & Rh & Rmi & Rs & Rus).
-  assert (Hoff : (0 <= of_h o < 10 ^ Z.of_nat 2) /\ (0 <= of_m o < 10 ^ Z.of_nat 2) /\ 0 <= of_h o <= 23 /\ 0 <= of_m o <= 59).
-  { unfold wf_off in Ho. change (10 ^ Z.of_nat 2) with 100. lia. }
-  destruct Hoff as (Roh & Rom & Hoh & Hom).
-  destruct o as [pos oh om]. cbn [of_pos of_h of_m] in *.
-  unfold smem, utc_name in Hloc.
-  unfold plain_joiners, plain_tforms, zone_oforms in *. cbn [In] in Hj, Htf, Hofm.
-  destruct Hj as [<- | [<- | []]]; destruct Htf as [<- | [<- | []]]; destruct Hofm as [<- | [<- | []]];
-  destruct pos;
-  match goal with |- parse _ (render ?t d ?o) = _ =>
-    assert (Hrender : render t d o = concat (map seg_str (zsegs_of t d o)))
-      by (unfold render, render_date, render_time, render_off, join_txt, zsegs_of, date_segs, join_segs, time_segs, off_segs;
-          cbn [map concat seg_str app of_pos of_h of_m];
-          repeat (progress (repeat rewrite <- app_assoc; cbn [app])); rewrite ?app_nil_r; reflexivity);
-    assert (Hwf : wf_segs (zsegs_of t d o) = true)
-      by (unfold zsegs_of, date_segs, join_segs, time_segs, off_segs; cbn [app wf_segs wf_seg hd_error ok_next of_pos of_h of_m];
-          rewrite ?digits_n_all_digit, ?digits_n_length, ?nonempty_digits; vm_compute; reflexivity)
-  end;
-  unfold parse, opts_df0;
-  cbn [o_fuzzy o_fwt o_yearfirst o_info_yearfirst o_dayfirst o_info_dayfirst o_cur_year oflag o_default
-       o_ignoretz o_tzinfos o_local o_nm0 o_nm1];
-  unfold parse_res; rewrite Hrender, timelex_segments by exact Hwf; clear Hrender Hwf;
-  unfold zsegs_of, date_segs, join_segs, time_segs, off_segs, expected_off, off_secs, zone_of_off;
-  cbn [app map seg_tok of_pos of_h of_m];
-  repeat (progress (sym2; rewrite ?firstn_digits_all));
-  try (match goal with |- context [match ?x with Z0 => _ | Zpos _ => _ | Zneg _ => _ end] => destruct x eqn:Esecs end);
-  try lia;
-  repeat (progress (sym2; rewrite ?firstn_digits_all; rewrite ?Hloc; rewrite ?tzoffset_ok_small by lia));
-  try match goal with |- (if ?b then _ else _) = _ => destruct b end;
-  reflexivity.
+  unfold plain_joiners, plain_tforms in *. cbn [In] in Hj, Htf.
+  destruct Hj as [<- | [<- | []]]; destruct Htf as [<- | [<- | []]].
+  - apply parse_render_iso_offset_JT_THM; assumption.
+  - apply parse_render_iso_offset_JT_THMS; assumption.
+  - apply parse_render_iso_offset_JSpace_THM; assumption.
+  - apply parse_render_iso_offset_JSpace_THMS; assumption.
 Qed.
